@@ -106,6 +106,7 @@ type Ev struct {
 	Callee *fnode
 	Inst   Own
 	Inner  *Ev
+	InLoop bool // ECall: the call is inside a for / range statement of its function
 }
 
 type fnode struct {
@@ -317,9 +318,15 @@ type walker struct {
 	recv  types.Object
 	evs   []Ev
 	depth int
+	loop  int // nesting depth of for / range statements
 }
 
-func (w *walker) emit(e Ev) { w.evs = append(w.evs, e) }
+func (w *walker) emit(e Ev) {
+	if e.Kind == ECall && w.loop > 0 {
+		e.InLoop = true // the callee runs once per iteration: any lock it takes is taken repeatedly
+	}
+	w.evs = append(w.evs, e)
+}
 
 func (w *walker) warnf(pos token.Pos, format string, a ...interface{}) {
 	w.fn.warn = append(w.fn.warn, fmt.Sprintf("%s: %s", w.p.fset.Position(pos), fmt.Sprintf(format, a...)))
@@ -447,6 +454,7 @@ func (w *walker) stmt(s ast.Stmt) {
 			w.emit(spin)
 			return
 		}
+		w.loop++
 		w.nested(func() {
 			if s.Cond != nil {
 				w.expr(s.Cond)
@@ -454,6 +462,7 @@ func (w *walker) stmt(s ast.Stmt) {
 			w.block(s.Body)
 			w.stmt(s.Post)
 		})
+		w.loop--
 	case *ast.RangeStmt:
 		w.expr(s.X)
 		if s.Tok == token.ASSIGN {
@@ -464,7 +473,9 @@ func (w *walker) stmt(s ast.Stmt) {
 				w.access(s.Value, true)
 			}
 		}
+		w.loop++
 		w.nested(func() { w.block(s.Body) })
+		w.loop--
 	case *ast.SwitchStmt:
 		w.stmt(s.Init)
 		if s.Tag != nil {
@@ -652,7 +663,7 @@ func (w *walker) deferOrGo(call *ast.CallExpr, isDefer bool) {
 	}
 	// evaluate the call into a scratch list; receiver/argument accesses happen now, the
 	// call event itself (the last event produced, if any) is deferred / spawned
-	sub := &walker{p: w.p, fn: w.fn, recv: w.recv, depth: w.depth}
+	sub := &walker{p: w.p, fn: w.fn, recv: w.recv, depth: w.depth, loop: w.loop}
 	before := len(sub.evs)
 	sub.call(call)
 	evs := sub.evs[before:]
@@ -1447,6 +1458,9 @@ func (p *pkgInfo) evText(e Ev) string {
 	case ESpin:
 		return fmt.Sprintf("Spin %s %d (* %s *)", ownNames[e.Own], e.Fld, p.fieldComment(e))
 	case ECall:
+		if e.InLoop {
+			return fmt.Sprintf("LoopCall %s %d (* %s *)", ownNames[e.Inst], e.Callee.id, e.Callee.name)
+		}
 		return fmt.Sprintf("Call %s %d (* %s *)", ownNames[e.Inst], e.Callee.id, e.Callee.name)
 	case EGo:
 		return fmt.Sprintf("Go %d (* %s *)", e.Callee.id, e.Callee.name)
